@@ -47,6 +47,12 @@ def system_fn(case):
             y1 = c[0] * x0 + c[1] * x1 ** 2 + 1.0
             y2 = c[2] * y1 ** 2 - y1 + c[3] * x1
             return (y1, y2)
+    elif topo == 'chain2p':      # a coupling variable in absolute units far from zero (a pressure of 101325 +- a fraction), NOT normalised
+        def f(x0, x1):
+            y1 = 101325.0 + 0.1 * (c[0] * x0 + c[1] * x1 ** 2)
+            d = y1 - 101325.0
+            y2 = c[2] * d ** 2 - d + c[3] * x1
+            return (y1, y2)
     elif topo == 'chain2a':      # anisotropic: degree 4 in the coupling variable (listed FIRST by the consumer), degree 1 in x1
         def f(x0, x1):
             y1 = c[0] * x0 + c[1] * x1 ** 2 + 1.0
@@ -115,6 +121,13 @@ def build(case):
         comps = [Component(lambda inputs: {'y1': c[0] * inputs['x0'] + c[1] * inputs['x1'] ** 2 + 1.0}, inputs=[x0, x1],
                            outputs=[y1], name='c1', vectorized=True, data_fidelity=(2, 2), training_data=sg()),
                  Component(lambda inputs: {'y2': c[2] * inputs['y1'] ** 2 - inputs['y1'] + c[3] * inputs['x1']},
+                           inputs=[y1, x1], outputs=[y2], name='c2', vectorized=True, data_fidelity=(2, 2), training_data=sg())]
+        cnames = ['y1']
+    elif topo == 'chain2p':
+        y1, y2 = cv('y1', 0), Variable('y2')
+        comps = [Component(lambda inputs: {'y1': 101325.0 + 0.1 * (c[0] * inputs['x0'] + c[1] * inputs['x1'] ** 2)}, inputs=[x0, x1],
+                           outputs=[y1], name='c1', vectorized=True, data_fidelity=(2, 2), training_data=sg()),
+                 Component(lambda inputs: {'y2': c[2] * (inputs['y1'] - 101325.0) ** 2 - (inputs['y1'] - 101325.0) + c[3] * inputs['x1']},
                            inputs=[y1, x1], outputs=[y2], name='c2', vectorized=True, data_fidelity=(2, 2), training_data=sg())]
         cnames = ['y1']
     elif topo == 'chain2a':
@@ -264,6 +277,10 @@ def run(ctx: core.Ctx, only=None) -> core.Result:
             c_ = gen_case(ctx.rng)
             c_.update(norm=[None, 'linear(0.5, 1)'][k % 2], bounds=['update', 'fixed'][k % 2], guess=['exact', 'wide'][k % 2],
                       topo=['chain2a', 'loop2s'][k % 2])
+            cases.append(c_)
+        for k in range(ctx.scale(2, 6)):      # un-normalised coupling variable of magnitude 1e5 and range < 1
+            c_ = gen_case(ctx.rng)
+            c_.update(norm=None, bounds=['update', 'estimate', 'fixed'][k % 3], guess=['exact', 'narrow', 'wide'][k % 3], topo='chain2p')
             cases.append(c_)
         for k in range(ctx.scale(2, 8)):      # feedback loops whose fixed coupling bounds do NOT contain the coupled solution
             c_ = gen_case(ctx.rng)
